@@ -48,6 +48,7 @@ def gen_cases(ctx):
 
 def run(ctx):
     ctx.check_props()
+    gen_fail = ctx.genlink_goarith("GoLinkC12")    # the Go arithmetic / constants are re-translated from the source and the GEN_* theorems re-checked
     model = ctx.build_model()
     vh = ctx.build_harness()
     vh_race = ctx.build_harness(race=True)
@@ -149,6 +150,7 @@ def run(ctx):
             if o["res"] != ri[0]["res"] or o["changed"] != ri[0]["changed"]:
                 report("Repair result with %d goroutines differs from the single-goroutine result (slice size %d): %s vs %s" % (g, S_, o["res"], ri[0]["res"]),
                        {"lines": [rl[0], line], "class": {"op": "repair-goroutines"}})
+    ctx.report_genlink(gen_fail, "GoLinkC12")
     return ctx.finish(
         "proof",
         rule="calculateParallelParams: exhaustive grid total 0..600 x g 1..64 for (16,16) and (1,1) (thorough 0..2500 x 1..130) plus totals around 2^16, 2^17, 2^20, 2^31 with g up to total; applyMatrix Single/ParallelData/ParallelOut on shard lengths 0..35, 63..65, 127, 255, 256, 2047, 32769 words x g in {1..9,16,17,64,1000} x GOMAXPROCS {1,2,16}, and under the race detector (GOMAXPROCS=8); outputs start as garbage between canaries; non-trivial = at least two workers after clamping",
